@@ -54,6 +54,12 @@ def profiles(p):
     v[3:5] = v[3]
     out['repeated values'] = v
     out['sigmoid'] = 0.1 + 0.5 / (1 + numpy.exp(-(p - 0.6) * 25))
+    # nothing adsorbed below the step (non-wetting adsorbate / baseline-subtracted data): exact zeros inside the range
+    v = numpy.zeros(n)
+    v[mid:] = 0.5
+    out['step from empty'] = v
+    v = numpy.maximum(0.0, 0.9 * (p - p[n // 3]))
+    out['ramp from empty'] = v
     return out
 
 
@@ -131,7 +137,7 @@ def work(arg):
                 v('zero-thickness-volumes', f'with a zero-thickness layer pore volumes {vols[:4]} are not the successive changes in adsorbed volume {dv[:4]}', dv, vols)
             if abs(vols.sum() - (vol[-1] - vol[0])) > 1e-12:
                 v('zero-thickness-sum', f'pore volumes sum to {vols.sum()} instead of {vol[-1] - vol[0]}')
-            if prof_name == 'single step':
+            if prof_name in ('single step', 'step from empty'):
                 nz = numpy.flatnonzero(numpy.abs(vols) > 1e-14)
                 k = len(p) // 2 - 1          # the step lies between p[k] and p[k+1]
                 if list(nz) != [k]:
@@ -165,6 +171,21 @@ def check_entry(ctx):
                     iso = pygaps.PointIsotherm(pressure=pp, loading=vv, branch=branch, material='c16', adsorbate=aname, temperature=pr['T'], **U)
                     for method, pore in (('pygaps-DH', 'slit'), ('pygaps-DH', 'cylinder'), ('pygaps-DH', 'sphere'), ('BJH', 'cylinder'), ('DH', 'cylinder')):
                         for lim in (None, (0.2, 0.9), (0.1, None), (None, None)):
+                            if lim == (None, None):
+                                # an explicitly requested meniscus geometry is the one used, on either branch
+                                for men_arg in ('hemicylindrical', 'cylindrical', 'hemispherical'):
+                                    om = core.call(pgc.psd_mesoporous, iso, psd_model=method, pore_geometry=pore, branch=branch, thickness_model='zero thickness',
+                                                   p_limits=lim, meniscus_geometry=men_arg)
+                                    ev += 1
+                                    wm = 2 * ref_kelvin(p, men_arg, used)
+                                    if not om.ok or min(core.relerr(om.value['pore_widths'], wm[:-1]), core.relerr(om.value['pore_widths'], wm[1:])) > 1e-6:
+                                        ctx.violate(core.make_violation(
+                                            {'check': 'entry-requested-meniscus', 'method': method, 'meniscus': men_arg, 'branch': branch},
+                                            f'psd_mesoporous({method},{pore},{branch}, meniscus_geometry={men_arg!r}) on {prname}/{gname}: widths '
+                                            f'{list(om.value["pore_widths"][:3]) if om.ok else om.brief()} do not follow the Kelvin equation for the requested meniscus ({list(wm[:3])})',
+                                            {}, wm, om.value['pore_widths'] if om.ok else om.brief()))
+                                    else:
+                                        nt += 1
                             o = core.call(pgc.psd_mesoporous, iso, psd_model=method, pore_geometry=pore, branch=branch, thickness_model='zero thickness', p_limits=lim)
                             ev += 1
                             lo, hi = (0.1, 0.99) if lim is None else lim
